@@ -72,6 +72,7 @@ type Node struct {
 	Custom  int
 	Extras  []string
 	Barrier int
+	BGroup  string // name of a parameter whose value is passed as rendezvous group
 	PadTo   int
 	Rec     bool // a pass-through recorder is attached to every out-port edge
 	// components
